@@ -315,13 +315,17 @@ func (h *Handler) handleMessage(ss *ShellStream, data []byte, flags uint8) {
 
 // handleStdin writes stdin data to the session.
 func (h *Handler) handleStdin(ss *ShellStream, data []byte) {
+	// The write blocks while the process is not reading its stdin, which it may do
+	// because its own output is not being taken. The output pumps need ss.mu, so it
+	// must not be held here.
 	ss.mu.Lock()
-	defer ss.mu.Unlock()
+	ptySession, session := ss.PTYSession, ss.Session
+	ss.mu.Unlock()
 
-	if ss.PTYSession != nil {
-		ss.PTYSession.Write(data)
-	} else if ss.Session != nil {
-		ss.Session.Stdin().Write(data)
+	if ptySession != nil {
+		ptySession.Write(data)
+	} else if session != nil {
+		session.Stdin().Write(data)
 	}
 }
 
